@@ -27,13 +27,15 @@ open RichModel RichModel.Screen RichModel.Live
 
 /-- **live_screen.**  After *any* well-formed history, replaying everything the display wrote on a fresh
 terminal leaves exactly: the printed lines in order, then the most recently refreshed frame (nothing
-after a transient stop), then blank rows only — no remnant of an earlier frame, no printed line lost. -/
+after a transient stop), then blank rows only — no remnant of an earlier frame, no printed line lost.
+Rows are rows of terminal cells: `cells cfg.cw l` is the line `l` with a filler cell after every
+double-width character (the identity when every character is one cell wide). -/
 theorem live_screen (cfg : Cfg) (ov : Overflow) (r0 : Frame) (h : List Op)
     (hfix : cfg.bareBypass = false) (hwf : wf cfg ov r0 h = true) :
     ∃ k, (replay cfg.height Screen.init (emit cfg ov r0 h)).rows =
-      printed cfg ov r0 h ++ lastFrame cfg ov r0 h ++ List.replicate k [] := by
+      (printed cfg ov r0 h ++ lastFrame cfg ov r0 h).map (cells cfg.cw) ++ List.replicate k [] := by
   simp only [wf, Bool.and_eq_true, decide_eq_true_eq] at hwf
-  exact (history_main hfix hwf.1 h _ _ _ (good_init cfg ov r0 hwf.1) hwf.2).1
+  exact (history_main hwf.1.1 hfix hwf.1.2 h _ _ _ (good_init cfg ov r0 hwf.1.2) hwf.2).1
 
 /-- **live_screen_sessions** (any number of sessions on the same display object).  For every history in
 which `start` / `stop` may occur anywhere — a stopped display started again, prints between the sessions —
@@ -44,23 +46,27 @@ non-transient sessions, in order; `finished`), then the frame of the session sti
 theorem live_screen_sessions (cfg : Cfg) (ov : Overflow) (r0 : Frame) (h : List Op)
     (hfix : cfg.bareBypass = false) (hreset : cfg.resetShape = true) (hwf : wfM cfg ov r0 h = true) :
     ∃ k, (replay cfg.height Screen.init (emit cfg ov r0 h)).rows =
-      finished cfg ov r0 h ++ liveFrameOf cfg ov r0 h ++ List.replicate k [] := by
+      (finished cfg ov r0 h ++ liveFrameOf cfg ov r0 h).map (cells cfg.cw) ++ List.replicate k [] := by
   simp only [wfM, Bool.and_eq_true, decide_eq_true_eq] at hwf
-  obtain ⟨k, hs, _⟩ := (history_multi hfix hreset hwf.1 h _ _ _ (good_init cfg ov r0 hwf.1) hwf.2).1.shown
-  exact shown_rows hs
+  obtain ⟨k, hs, _⟩ := (history_multi hwf.1.1 hfix hreset hwf.1.2 h _ _ _ (good_init cfg ov r0 hwf.1.2) hwf.2).1.shown
+  obtain ⟨k', hk'⟩ := shown_rows hs
+  refine ⟨k', ?_⟩
+  show (replay cfg.height Screen.init (run cfg noFault (initSt ov r0) h).2.1).rows = _
+  rw [hk', List.map_append]; rfl
 
 /-- …and during all of it the cursor never goes above the first row under the finished output. -/
 theorem cursor_never_above_region_sessions (cfg : Cfg) (ov : Overflow) (r0 : Frame) (h : List Op)
     (hfix : cfg.bareBypass = false) (hreset : cfg.resetShape = true) (hwf : wfM cfg ov r0 h = true) :
     AboveRegionM cfg (initSt ov r0) {} Screen.init h := by
   simp only [wfM, Bool.and_eq_true, decide_eq_true_eq] at hwf
-  exact (history_multi hfix hreset hwf.1 h _ _ _ (good_init cfg ov r0 hwf.1) hwf.2).2.2
+  exact (history_multi hwf.1.1 hfix hreset hwf.1.2 h _ _ _ (good_init cfg ov r0 hwf.1.2) hwf.2).2.2
 
 /-- **cursor_hidden_iff_started**: for *every* history (any operations, any faults, every code variant,
-the caller catching whatever is raised) the cursor is hidden exactly while the display is started. -/
+every kind of console, the caller catching whatever is raised) the cursor is hidden exactly while the
+display is started on a terminal that understands the codes (`vis cfg started = !(started && cfg.ansi)`). -/
 theorem cursor_hidden_iff_started (cfg : Cfg) (fails : Nat → Bool) (H : Nat) (ops : List Op) :
-    ∀ (st : St) (s : Screen), Bal cfg st → s.visible = !st.started →
-      (replay H s (run cfg fails st ops).2.1).visible = !(run cfg fails st ops).1.started := by
+    ∀ (st : St) (s : Screen), Bal cfg st → s.visible = vis cfg st.started →
+      (replay H s (run cfg fails st ops).2.1).visible = vis cfg (run cfg fails st ops).1.started := by
   induction ops with
   | nil => intro st s _ hv; simpa [run, replay_nil] using hv
   | cons op rest ih =>
@@ -78,7 +84,7 @@ theorem cursor_never_above_region (cfg : Cfg) (ov : Overflow) (r0 : Frame) (h : 
     (hfix : cfg.bareBypass = false) (hwf : wf cfg ov r0 h = true) :
     AboveRegion cfg (initSt ov r0) {} Screen.init h := by
   simp only [wf, Bool.and_eq_true, decide_eq_true_eq] at hwf
-  exact (history_main hfix hwf.1 h _ _ _ (good_init cfg ov r0 hwf.1) hwf.2).2.1
+  exact (history_main hwf.1.1 hfix hwf.1.2 h _ _ _ (good_init cfg ov r0 hwf.1.2) hwf.2).2.1
 
 /-- **cursor_visible_after_stop** (well-formed histories): once the started display is stopped the
 cursor is visible again. -/
@@ -87,19 +93,20 @@ theorem cursor_visible_after_stop (cfg : Cfg) (ov : Overflow) (r0 : Frame) (pre 
     (hstarted : (run cfg noFault (initSt ov r0) pre).1.started = true) :
     (replay cfg.height Screen.init (emit cfg ov r0 (pre ++ [.stop]))).visible = true := by
   simp only [wf, Bool.and_eq_true, decide_eq_true_eq] at hwf
-  exact (history_main hfix hwf.1 _ _ _ _ (good_init cfg ov r0 hwf.1) hwf.2).2.2 pre rfl hstarted
+  exact (history_main hwf.1.1 hfix hwf.1.2 _ _ _ _ (good_init cfg ov r0 hwf.1.2) hwf.2).2.2 pre rfl hstarted
 
 /-- …and with no hypothesis at all on the history: from *any* balanced state, with *any* fault
 predicate, whatever `stop` writes ends with the cursor shown if the display was started. -/
 theorem stop_shows_cursor (cfg : Cfg) (fails : Nat → Bool) (st : St) (hbal : Bal cfg st)
-    (hst : st.started = true) (H : Nat) (s : Screen) :
+    (hst : st.started = true) (H : Nat) (s : Screen) (hv : s.visible = vis cfg st.started) :
     (replay H s (doStop cfg fails st).out).visible = true := by
-  rw [replay_visible, (doStop_ctl cfg fails st hbal s.visible).2.2, hst]; rfl
+  rw [replay_visible, (doStop_ctl cfg fails st hbal s.visible).2.2, hv, hst]
+  unfold vis; cases cfg.ansi <;> rfl
 
 /-- Frames of a Live with `crop` or `ellipsis` always fit the screen (so `wf` only constrains `visible`). -/
 theorem shown_fits_of_crop (cfg : Cfg) (st : St) (hk : cfg.kind ≠ .progress) (hH : 1 ≤ cfg.height)
     (hov : st.overflow ≠ .visible) : (shown cfg st).length ≤ cfg.height := by
-  have : shown cfg st = liveFrame cfg st.overflow st.renderable := by
+  have : shown cfg st = liveFrame cfg.cw (curWidth cfg st) cfg.height st.overflow st.renderable := by
     unfold shown; cases h : cfg.kind <;> simp_all
   rw [this]
   unfold liveFrame
@@ -132,6 +139,7 @@ theorem cleanup_on_exception (cfg : Cfg) (hfix : cfg.kind ≠ .progress ∨ cfg.
     simp at b1 b2 b3 b4 b5
     exact ⟨b1, b2, b3, b4, b5⟩
   have hstart := doStart_ctl cfg fails st hbal true (by rw [hst]; rfl)
+  have visF : vis cfg false = true := rfl
   simp only [runWith]
   cases he : (doStart cfg fails st).err with
   | some e =>
@@ -142,15 +150,15 @@ theorem cleanup_on_exception (cfg : Cfg) (hfix : cfg.kind ≠ .progress ∨ cfg.
     rw [replay_visible, hvis, hstart.2.1, hns]; rfl
   | none =>
     simp only
-    have hbody := runBody_ctl cfg fails body (doStart cfg fails st).st raiseAt (!(doStart cfg fails st).st.started) hstart.1 rfl
+    have hbody := runBody_ctl cfg fails body (doStart cfg fails st).st raiseAt (vis cfg (doStart cfg fails st).st.started) hstart.1 rfl
     generalize runBody cfg fails (doStart cfg fails st).st body raiseAt = rb at hbody
     obtain ⟨st1, out1, raised1⟩ := rb
     simp only at hbody ⊢
-    have hstop := doStop_ctl cfg fails st1 hbody.1 (!st1.started)
+    have hstop := doStop_ctl cfg fails st1 hbody.1 (vis cfg st1.started)
     refine ⟨hstop.2.1, (fin _ hstop.1 hstop.2.1).1, (fin _ hstop.1 hstop.2.1).2.1, (fin _ hstop.1 hstop.2.1).2.2.1,
       (fin _ hstop.1 hstop.2.1).2.2.2.1, (fin _ hstop.1 hstop.2.1).2.2.2.2, ?_, ?_⟩
     · rw [replay_visible, hvis, lastVis_append, lastVis_append, hstart.2.1, hbody.2.1, hstop.2.2]
-      cases st1.started <;> rfl
+      unfold vis; cases st1.started <;> cases cfg.ansi <;> rfl
     · intro j hj hle
       rw [hbody.2.2 j hj hle]; rfl
 
@@ -166,7 +174,7 @@ theorem run_balanced (cfg : Cfg) (fails : Nat → Bool) (ops : List Op) :
   | nil => intro st h; exact h
   | cons op rest ih =>
     intro st h
-    have := ih _ (step_ctl cfg fails st op h (!st.started) rfl).1
+    have := ih _ (step_ctl cfg fails st op h (vis cfg st.started) rfl).1
     simpa [run] using this
 
 /-! ## Witnesses: the defects of rich 9.10.0 as found, all repaired in /repo since (machine-checked negations) -/
@@ -191,7 +199,7 @@ def cfgProgress : Cfg := { kind := .progress, transient := false, width := 20, h
 `__enter__` never returns, `__exit__` is never called, and the hook, the redirection of `sys.stdout` /
 `sys.stderr` and the hidden cursor all stay behind. -/
 theorem old_progress_start_leaks :
-    let st0 := (run cfgProgress (fun i => i == 1) (initSt .visible []) [.addTask ['t'] true]).1
+    let st0 := (run cfgProgress (fun i => i == 1) (initSt .visible []) [.addTask ['t'] true 100]).1
     let res := runWith { cfgProgress with startGuard := false } (fun i => i == 1) st0 [] none
     res.2.2 = true ∧ res.1.hooks = 1 ∧ res.1.stdoutDepth = 1 ∧ res.1.stderrDepth = 1 ∧
       (replay 6 Screen.init res.2.1).visible = false := by
@@ -199,7 +207,7 @@ theorem old_progress_start_leaks :
 
 /-- The same input with the guarded `start`: everything restored, the exception still propagates. -/
 example :
-    let st0 := (run cfgProgress (fun i => i == 1) (initSt .visible []) [.addTask ['t'] true]).1
+    let st0 := (run cfgProgress (fun i => i == 1) (initSt .visible []) [.addTask ['t'] true 100]).1
     let res := runWith { cfgProgress with startGuard := true } (fun i => i == 1) st0 [] none
     res.2.2 = true ∧ res.1.hooks = 0 ∧ res.1.stdoutDepth = 0 ∧ res.1.stderrDepth = 0 ∧
       (replay 6 Screen.init res.2.1).visible = true := by
@@ -221,6 +229,49 @@ example :
     (replay 6 Screen.init (run { cfgLive with bareBypass := false, resetShape := true } noFault
         (initSt .ellipsis [['1'], ['2'], ['3']]) h).2.1).rows = [['1'], ['2'], ['3'], ['b'], ['M']] := by
   decide
+
+
+/-- Today's `restore_cursor` (`blankFix = false`) goes up `height` rows: a transient display whose last
+frame is *empty* (a `Progress(transient=True)` without visible task, a Live showing nothing) does not undo
+the line feed `stop` wrote, and one blank line stays between what was printed before and after —
+`a / (blank) / b` although a transient display is to leave nothing.  (`finished` records that blank row, so
+`live_screen_sessions` holds for both variants; the specification-level expectation `[a, b]` is the one
+evaluated on real rich.) -/
+theorem old_transient_empty_frame_leaves_blank_line :
+    let cfg : Cfg := { cfgLive with bareBypass := false, resetShape := true, transient := true }
+    let h : List Op := [.start, .print [['a']], .stop, .print [['b']]]
+    (replay 6 Screen.init (emit { cfg with blankFix := false } .ellipsis [] h)).rows = [['a'], [], ['b'], []] ∧
+    (replay 6 Screen.init (emit { cfg with blankFix := true } .ellipsis [] h)).rows = [['a'], ['b'], []] ∧
+    finished { cfg with blankFix := true } .ellipsis [] h = [['a'], ['b']] := by
+  decide
+
+/-- Today's `stop` (`flushFix = false`) does not flush the redirected streams before its last refresh.
+Text that `print("DL", end="")` left pending in the FileProxy is written only when the proxy object dies
+in `_disable_redirect_io` — after the last frame and the final line feed, through the still installed
+hook: a row of the old frame stays, the text lands below it, the frame is drawn a second time and the
+cursor is left at its end.  With the repaired `stop` the text is completed *above* the last frame. -/
+theorem old_pending_text_flushed_after_last_frame :
+    let cfg : Cfg := { cfgLive with bareBypass := false, resetShape := true }
+    let h : List Op := [.start, .refresh, .write false [] ['D', 'L'], .stop]
+    (replay 6 Screen.init (emit { cfg with flushFix := false } .ellipsis [['1'], ['2']] h)).rows
+      = [['1'], ['D', 'L'], ['1'], ['2']] ∧
+    (replay 6 Screen.init (emit { cfg with flushFix := true } .ellipsis [['1'], ['2']] h)).rows
+      = [['D', 'L'], ['1'], ['2'], []] := by
+  decide
+
+/- Decided against the property text, with evidence on real rich (harness/props/c10.py, corpus):
+
+* `console.print("abc", end="")` under a live display — NOT a finding, outside `wf`.  The property speaks
+  of printed *lines*.  The hook appends the frame to whatever the user printed, so an unterminated print
+  shares its row with the first frame line (`abcF1`), and the next refresh erases that row with the frame:
+  real rich shows `F1 / F2` after `start; refresh; print("abc", end=""); refresh; stop`.  Keeping partial
+  output would need the display to buffer it (as FileProxy does for `sys.stdout`); this is the design of
+  `process_renderables`, not a slip in it.  `wf` therefore has no such operation; text written to the
+  *redirected streams* without a new line is modelled (`Op.write`), and must have been completed when
+  `stop` is called (`wf`), or is handled by the repaired `stop` (witness above).
+* a transient display with an empty last frame leaves a blank line — a finding (small):
+  `old_transient_empty_frame_leaves_blank_line`.
+* text pending in a FileProxy at `stop` — a finding: `old_pending_text_flushed_after_last_frame`. -/
 
 /-- Known finding (no small repair): a transient display whose last frame fills the screen.  The line
 feed `stop` writes scrolls the first frame row out of reach before `restore_cursor` runs, so it stays in
@@ -247,15 +298,32 @@ example : (replay 3 Screen.init (emit { cfgLive with bareBypass := false, height
 
 /-- a transient Progress: tasks added before and after start, one hidden again -/
 example : wf { cfgProgress with transient := true, bareBypass := false } .visible []
-    [.addTask ['a'] true, .start, .addTask ['b', 'c'] true, .advance 0 3, .print [['o', 'u', 't']],
-     .setVisible 1 false true, .stop] = true := by decide
+    [.addTask ['a'] true 100, .start, .addTask ['b', 'c'] true 100, .updateTask 0 { advance := some 3 } false, .print [['o', 'u', 't']],
+     .updateTask 1 { visible := some false } true, .stop] = true := by decide
 
 example : printed { cfgProgress with transient := true, bareBypass := false } .visible []
-    [.addTask ['a'] true, .start, .addTask ['b', 'c'] true, .advance 0 3, .print [['o', 'u', 't']],
-     .setVisible 1 false true, .stop] = [['o', 'u', 't']] ∧
+    [.addTask ['a'] true 100, .start, .addTask ['b', 'c'] true 100, .updateTask 0 { advance := some 3 } false, .print [['o', 'u', 't']],
+     .updateTask 1 { visible := some false } true, .stop] = [['o', 'u', 't']] ∧
   lastFrame { cfgProgress with transient := true, bareBypass := false } .visible []
-    [.addTask ['a'] true, .start, .addTask ['b', 'c'] true, .advance 0 3, .print [['o', 'u', 't']],
-     .setVisible 1 false true, .stop] = [] := by decide
+    [.addTask ['a'] true 100, .start, .addTask ['b', 'c'] true 100, .updateTask 0 { advance := some 3 } false, .print [['o', 'u', 't']],
+     .updateTask 1 { visible := some false } true, .stop] = [] := by decide
+
+/-- double-width characters: the frame is cropped in cells (the `あ` that would straddle column 4 becomes a
+space), and every `あ` occupies two cells of the screen -/
+example :
+    let cfg : Cfg := { cfgLive with bareBypass := false, width := 4, cw := fun c => if c = 'あ' then 2 else 1 }
+    let h : List Op := [.start, .print [['あ', 'x']], .update [['a', 'あ', 'あ', 'b'], ['あ']] true, .stop]
+    wf cfg .ellipsis [] h = true ∧ lastFrame cfg .ellipsis [] h = [['a', 'あ', ' '], ['あ']] ∧
+    (replay 6 Screen.init (emit cfg .ellipsis [] h)).rows
+      = [['あ', '\x00', 'x'], ['a', 'あ', '\x00', ' '], ['あ', '\x00'], []] := by decide
+
+/-- two sessions on the same Live with prints between them (repaired `stop`) -/
+example : wfM { cfgLive with bareBypass := false, resetShape := true } .ellipsis [['1'], ['2'], ['3']]
+    [.start, .refresh, .stop, .print [['b']], .start, .update [['M']] true, .stop, .print [['c']]] = true := by decide
+
+example : finished { cfgLive with bareBypass := false, resetShape := true } .ellipsis [['1'], ['2'], ['3']]
+    [.start, .refresh, .stop, .print [['b']], .start, .update [['M']] true, .stop, .print [['c']]]
+    = [['1'], ['2'], ['3'], ['b'], ['M'], ['c']] := by decide
 
 /-- `wf` really excludes something: a `visible` frame taller than the screen, and a transient frame that
 fills the screen. -/
